@@ -17,7 +17,7 @@ pub struct Case {
   pub doc: Vec<u8>,
 }
 
-pub const FAMILIES: [&str; 6] = ["bytes", "hostile", "rulegraphs", "depth", "size", "text"];
+pub const FAMILIES: [&str; 7] = ["bytes", "hostile", "rulegraphs", "depth", "size", "text", "opmatrix"];
 
 fn c(ep: &'static str, schema: &str, doc: &[u8]) -> Case {
   Case { ep, schema: schema.to_string(), doc: doc.to_vec() }
@@ -333,6 +333,45 @@ fn fam_text(_tier: Tier) -> Vec<Case> {
   out
 }
 
+/// every registered control operator x target kind x controller shape x document (both validators): the operators each
+/// have their own code path that slices, decodes or unwraps its operands
+fn fam_opmatrix(tier: Tier) -> Vec<Case> {
+  let targets: Vec<&str> = match tier {
+    Tier::Quick => vec!["tstr", "bstr", "uint", "any", "[int]"],
+    Tier::Thorough => vec!["tstr", "bstr", "uint", "int", "float", "any", "[int]", "{a: int}", "b"],
+  };
+  let controllers: Vec<&str> = match tier {
+    Tier::Quick => vec!["1", "\"a\"", "\"\"", "'ab'", "[\"%d\", 1]", "int", "(1..2)", "b"],
+    Tier::Thorough => vec!["1", "-1", "1.5", "\"a\"", "\"\"", "'ab'", "h''", "[1]", "[\"%d\", 1]", "[\"a\", \"b\"]", "int", "tstr", "(1..2)", "b", "{a: 1}"],
+  };
+  let docs = ["\"\"", "\"a\"", "\"\\u00e9\"", "\"\\u20ac\\u20ac\"", "\"ab\"", "\"YWI\"", "\"12\"", "\"-\"", "\"0\"", "\"a\\nb\"", "0", "1", "-1", "1.5", "true", "null", "[]", "[1]", "{}", "{\"a\":1}"];
+  let mut out = vec![];
+  for op in crate::syn::CONTROL_NAMES {
+    for t in &targets {
+      for ctl in &controllers {
+        let schema = format!("a = {t} .{op} {ctl}\nb = \"x\"\n");
+        for d in docs {
+          out.push(c("json", &schema, d.as_bytes()));
+          let v: serde_json::Value = serde_json::from_str(d).unwrap();
+          let mut b = vec![];
+          ciborium::ser::into_writer(&v, &mut b).unwrap();
+          out.push(c("cbor", &schema, &b));
+        }
+      }
+    }
+  }
+  // byte-string documents for the operators that take bytes (CBOR only)
+  for op in crate::syn::CONTROL_NAMES {
+    for ctl in &controllers {
+      let schema = format!("a = bstr .{op} {ctl}\nb = \"x\"\n");
+      for d in [&b"\x40"[..], &b"\x41\x01"[..], &b"\x42\xc3\xa9"[..], &b"\x43\xff\xfe\xfd"[..]] {
+        out.push(c("cbor", &schema, d));
+      }
+    }
+  }
+  out
+}
+
 pub fn family(name: &str, tier: Tier) -> Vec<Case> {
   match name {
     "bytes" => fam_bytes(tier),
@@ -340,6 +379,7 @@ pub fn family(name: &str, tier: Tier) -> Vec<Case> {
     "rulegraphs" => fam_rulegraphs(tier),
     "depth" => fam_depth(tier),
     "size" => fam_size(tier),
+    "opmatrix" => fam_opmatrix(tier),
     _ => fam_text(tier),
   }
 }
